@@ -31,15 +31,19 @@ fn raw_header<'a>(raw: &'a [(String, Vec<u8>)], name: &str) -> Option<&'a Vec<u8
 pub fn gen_c14(rng: &mut Rng, thorough: bool, cases: &mut dyn Write, meta: &mut dyn Write, prop: &str) {
     let mut n = 0u64;
     let now = now_secs();
-    let mtimes: Vec<(String, Option<u64>)> = vec![
+    let ns = |s: u64, sub: u128| Some(s as u128 * 1_000_000_000 + sub);
+    let mtimes: Vec<(String, Option<u128>)> = vec![
         ("absent".into(), None),
         ("epoch".into(), Some(0)),
-        ("whole-second".into(), Some(T0 * 1_000_000_000)),
-        ("plus-1ms".into(), Some(T0 * 1_000_000_000 + 1_000_000)),
-        ("plus-1ns".into(), Some(T0 * 1_000_000_000 + 1)),
-        ("1ns-before-next-second".into(), Some(T0 * 1_000_000_000 + 999_999_999)),
-        ("recent".into(), Some((now - 3) * 1_000_000_000 + 250_000_000)),
-        ("future".into(), Some((now + 86400) * 1_000_000_000 + 5)),
+        ("whole-second".into(), ns(T0, 0)),
+        ("plus-1ms".into(), ns(T0, 1_000_000)),
+        ("plus-1ns".into(), ns(T0, 1)),
+        ("1ns-before-next-second".into(), ns(T0, 999_999_999)),
+        ("recent".into(), ns(now - 3, 250_000_000)),
+        ("future".into(), ns(now + 86400, 5)),
+        // no HTTP-date exists for these (a garbage file timestamp): Last-Modified is the clock
+        ("future-year-10000".into(), ns(FAR_FUTURE_SECS[0], 0)),
+        ("future-far-beyond".into(), ns(FAR_FUTURE_SECS[1], 7)),
     ];
     for etag in etag_variants() {
         for (mname, mtime) in &mtimes {
@@ -53,7 +57,9 @@ pub fn gen_c14(rng: &mut Rng, thorough: bool, cases: &mut dyn Write, meta: &mut 
                     };
                     let l = 1000;
                     let c1 = {
-                        let mut c = case(ent_with(l, &etag, *mtime, hs.clone()), "GET", h1, format!("H:first mtime={} etag={:?} ehdrs={} req={}", mname, etag.as_ref().map(|t| String::from_utf8_lossy(&t.render()).to_string()), hs.len(), first_req));
+                        let mut e1 = ent_with(l, &etag, None, hs.clone());
+                        e1.mtime_ns = *mtime;
+                        let mut c = case(e1, "GET", h1, format!("H:first mtime={} etag={:?} ehdrs={} req={}", mname, etag.as_ref().map(|t| String::from_utf8_lossy(&t.render()).to_string()), hs.len(), first_req));
                         add_hint(&mut c, 4, Val::opt(etag.as_ref().map(|t| t.val())));
                         c
                     };
@@ -107,8 +113,10 @@ pub fn gen_c14(rng: &mut Rng, thorough: bool, cases: &mut dyn Write, meta: &mut 
                             1
                         };
                         let m = if rng.chance(1, 6) { "HEAD" } else { "GET" };
+                        let mut e2 = ent_with(l, &etag, None, hs.clone());
+                        e2.mtime_ns = *mtime;
                         let mut c2 = case(
-                            ent_with(l, &etag, *mtime, hs.clone()),
+                            e2,
                             m,
                             h2,
                             format!("H:echo mtime={} etag={:?} echo={} expect={}", mname, etag.as_ref().map(|t| String::from_utf8_lossy(&t.render()).to_string()), names.join("+"), expect),
@@ -177,7 +185,7 @@ pub fn gen_c15(rng: &mut Rng, thorough: bool, cases: &mut dyn Write, meta: &mut 
             if sg != sh {
                 checks.push(format!("C15:head-status-differs({}vs{})", sg, sh));
             }
-            let future = c.ent.mtime_ns.map(|m| m / 1_000_000_000 + 5 > now).unwrap_or(false);
+            let future = c.ent.mtime_ns.map(|m| m / 1_000_000_000 + 5 > now as u128).unwrap_or(false);
             let norm = |hs: &Vec<(String, Vec<u8>)>| {
                 let mut v: Vec<(String, Vec<u8>)> = hs.iter().filter(|(k, _)| k != "date" && !(future && k == "last-modified")).cloned().collect();
                 v.sort();
